@@ -218,7 +218,10 @@ def tlc(specwork, module, cfg, workers=1, timeout=600, simulate=None, depth=None
         tag = "%s_%d" % (module, _tlc_seq[0])
     md = os.path.join(specwork, "md_" + tag)
     outpath = os.path.join(specwork, "out_" + tag + ".txt")
-    cmd = ["java", "-XX:+UseParallelGC", "-XX:ParallelGCThreads=%d" % (2 if workers <= 2 else min(workers, 8)), "-XX:TieredStopAtLevel=4"]
+    # bounded heaps: checks run many JVMs side by side (the JVM's default of a quarter of the RAM each
+    # ended in the kernel's OOM killer on a loaded machine)
+    heap = os.environ.get("VERIF_TLC_HEAP") or ("3g" if (simulate is not None or workers <= 1) else ("6g" if workers <= 4 else "12g"))
+    cmd = ["java", "-Xmx" + heap, "-XX:+UseParallelGC", "-XX:ParallelGCThreads=%d" % (2 if workers <= 2 else min(workers, 8)), "-XX:TieredStopAtLevel=4"]
     if xss:
         cmd += ["-Xss512m"]
     if deque:
@@ -245,12 +248,16 @@ def tlc(specwork, module, cfg, workers=1, timeout=600, simulate=None, depth=None
             p = subprocess.run(cmd, cwd=specwork, stdout=out, stderr=subprocess.STDOUT, timeout=timeout, env=e)
             rc = p.returncode
         except subprocess.TimeoutExpired:
-            rc = -9
+            rc = -99
     wall = time.time() - t0
     shutil.rmtree(md, ignore_errors=True)
     r = Tlc(rc, outpath, wall)
-    if rc == -9:
+    if rc == -99:
         r.error = "timeout after %ss" % timeout
+    elif rc < 0:
+        r.error = "TLC killed by signal %d" % -rc
+    elif rc != 0 and not r.error and "OutOfMemoryError" in open(outpath, errors="replace").read():
+        r.error = "TLC out of heap (-Xmx%s)" % heap
     if (not xss) and r.error and "StackOverflow" in open(outpath, errors="replace").read():
         return tlc(specwork, module, cfg, workers, timeout, simulate, depth, seed, env, extra, deque, True, continue_)
     return r
